@@ -220,8 +220,7 @@ StmtFillersSeq == <<
   F(<<"st-export-type-from">>, {"rich"}, <<"export", "type", "{", "EA", ",", "EB", "as", "EC", "}", "from", "'t'", ";">>),
   F(<<"st-export-type-star">>, {"rich"}, <<"export", "type", "*", "from", "'t'", ";">>),
   F(<<"st-export-type-star-as">>, {"rich"}, <<"export", "type", "*", "as", "ETN", "from", "'t'", ";">>),
-  F(<<"st-type-and-export-type">>, {"rich"}, <<"type", "LX", "=", "1", ";", "export", "type", "{", "LX", "}", ";">>),
-  F(<<"st-interface-and-export">>, {"rich", "nv"}, <<"interface", "LI", "{", "}", "export", "{", "LI", "}", ";">>) >>
+  F(<<"st-type-and-export-type">>, {"rich"}, <<"type", "LX", "=", "1", ";", "export", "type", "{", "LX", "}", ";">>) >>
 StmtFillers == Sample(StmtFillersSeq)
 
 (* overload signatures of the function f that follows the slot *)
